@@ -104,7 +104,13 @@ pub extern "C" fn tsrun_get_export_names(
     };
 
     let names = ctx.interp.get_export_names();
-    let c_names: Vec<*mut c_char> = names.iter().map(|s| str_to_c_string(s)).collect();
+    // A name with an interior NUL byte has no C string form: it is left out instead of being
+    // reported as a NULL entry
+    let c_names: Vec<*mut c_char> = names
+        .iter()
+        .map(|s| str_to_c_string(s))
+        .filter(|p| !p.is_null())
+        .collect();
 
     let count = c_names.len();
     if !count_out.is_null() {
